@@ -274,6 +274,55 @@ def equal_up_to_slot_renumbering(t1, t2):
     return True
 
 
+def s_slots(version, mid):
+    """a program whose objects are created partly before and partly after unrelated activity"""
+    x = pt.ScratchVar()
+    e1 = x.store(pt.Int(10))
+    mid()
+    y = pt.ScratchVar()
+    return pt.compileTeal(pt.Seq(e1, y.store(pt.Int(20)), x.load() - y.load()), pt.Mode.Application, version=version)
+
+
+def s_subs(version, mid):
+    @pt.Subroutine(pt.TealType.uint64)
+    def before(a):
+        t = pt.ScratchVar()
+        return pt.Seq(t.store(a), t.load() + pt.Int(1))
+    c1 = before(pt.Int(1))
+    mid()
+
+    @pt.Subroutine(pt.TealType.uint64)
+    def after(a):
+        t = pt.ScratchVar()
+        return pt.Seq(t.store(a), t.load() + pt.Int(2))
+    return pt.compileTeal(c1 + after(pt.Int(2)) + before(pt.Int(3)), pt.Mode.Application, version=version)
+
+
+def s_router(version, mid):
+    keep = pt.ScratchVar()
+    r = pt.Router("split", pt.BareCallActions(no_op=pt.OnCompleteAction.create_only(
+        pt.Seq(keep.store(pt.Int(1)), pt.Pop(keep.load()), pt.Approve()))), clear_state=pt.Approve())
+
+    @pt.ABIReturnSubroutine
+    def m1(a: abi.Uint64, b: abi.String, *, output: abi.String) -> pt.Expr:
+        return output.set(b.get())
+    r.add_method_handler(m1)
+    mid()
+    ap, cl, _c = r.compile_program(version=version)
+    return ap + "\n=====\n" + cl
+
+
+def s_abi(version, mid):
+    a = abi.Uint64()
+    e = a.set(pt.Int(5))
+    mid()
+    b = abi.String()
+    c = abi.make(abi.Tuple2[abi.Uint64, abi.String])
+    return pt.compileTeal(pt.Seq(e, b.set("hi"), c.set(a, b), pt.Log(c.encode()), pt.Int(1)), pt.Mode.Application, version=version)
+
+
+SPLIT_PROBES = {"split_slots": s_slots, "split_subs": s_subs, "split_router": s_router, "split_abi": s_abi}
+
 PROBES = {"abi_main": p_abi_main, "recursive": p_recursive, "router": p_router, "slots": p_slots,
           "same_expr_twice": p_same_expr_twice, "router_twice": p_router_twice}
 PROBE_VERSIONS = (6, 8)
@@ -293,7 +342,7 @@ def global_state():
     return st
 
 
-def run_history(history, full):
+def run_history(history, full, mid=None):
     out = {"probes": {}, "activity_errors": {}}
     for name in history:
         try:
@@ -301,6 +350,23 @@ def run_history(history, full):
         except BaseException as e:  # an activity must never leak an exception
             out["activity_errors"][name] = "%s: %s" % (type(e).__name__, str(e)[:200])
     out["state"] = global_state()
+    if mid is not None:
+        # split probes: the activities of `mid` run between the construction of the first and the second
+        # half of the probe's own objects
+        def run_mid():
+            for name in mid:
+                try:
+                    ACTIVITIES[name]()
+                except BaseException as e:
+                    out["activity_errors"][name] = "%s: %s" % (type(e).__name__, str(e)[:200])
+        for pname, fn in SPLIT_PROBES.items():
+            for v in PROBE_VERSIONS:
+                try:
+                    text = fn(v, run_mid)
+                except BaseException as e:
+                    text = "EXC %s: %s" % (type(e).__name__, str(e)[:300])
+                out["probes"]["%s@v%d" % (pname, v)] = text if full else hashlib.sha256(text.encode()).hexdigest()
+        return out
     for pname, fn in PROBES.items():
         for v in PROBE_VERSIONS:
             try:
@@ -325,7 +391,7 @@ def serve():
         if pid == 0:
             os.close(r)
             try:
-                res = run_history(req["history"], req.get("full", False))
+                res = run_history(req["history"], req.get("full", False), req.get("mid"))
             except BaseException:
                 res = {"fatal": traceback.format_exc()}
             res["id"] = req["id"]
